@@ -278,8 +278,10 @@ class VLoop(asyncio.BaseEventLoop):
         except OSError:
             if host in self.resolver:
                 raise
-            # unknown names resolve to a fixed fake address
-            addr, fam = '10.9.9.9', _socket.AF_INET
+            # unknown names resolve to a fake address derived from the name
+            import hashlib
+            h = hashlib.sha256(host.encode()).digest()
+            addr, fam = '10.%d.%d.%d' % (h[0], h[1], h[2] or 1), _socket.AF_INET
         cname = host if flags & _socket.AI_CANONNAME else ''
         sa = (addr, port) if fam == _socket.AF_INET else (addr, port, 0, 0)
         return [(fam, _socket.SOCK_STREAM, 6, cname, sa)]
